@@ -33,7 +33,7 @@ Definition default_end : rdargs :=
 Inductive darg :=
 | ANone                 (* None *)
 | AFalse                (* False (what tzstr passes) *)
-| AArgs (a : rdargs).   (* relativedelta(**a) *)
+| AArgs (a : rdargs).   (* relativedelta of keyword set a *)
 
 Definition mk_delta (a : darg) (dflt : rdargs) (dstabbr : bool) : res delta :=
   match a with
